@@ -407,6 +407,35 @@ func stringIndex(index syntax.ArithmExpr) bool {
 	return false
 }
 
+// elemValue returns the current value of a single array element, or the
+// empty string if it is unset.
+func (r *Runner) elemValue(vr expand.Variable, index syntax.ArithmExpr) string {
+	switch vr.Kind {
+	case expand.Associative:
+		key, _ := r.assocKey(index)
+		return vr.Map[key]
+	case expand.String:
+		if r.arithm(index) == 0 {
+			return vr.Str
+		}
+	case expand.Indexed:
+		k := r.arithm(index)
+		if k < 0 {
+			k += internal.IndexedMax(vr.List, vr.Indexes) + 1
+		}
+		if vr.Indexes == nil {
+			if k >= 0 && k < len(vr.List) {
+				return vr.List[k]
+			}
+			return ""
+		}
+		if i, ok := slices.BinarySearch(vr.Indexes, k); ok {
+			return vr.List[i]
+		}
+	}
+	return ""
+}
+
 // TODO: make assignVal and [setVar] consistent with the [expand.WriteEnviron] interface
 
 func (r *Runner) assignVal(name string, prev expand.Variable, as *syntax.Assign, valType string) (string, expand.Variable) {
@@ -424,12 +453,23 @@ func (r *Runner) assignVal(name string, prev expand.Variable, as *syntax.Assign,
 			prev.Str = s
 			return name, prev
 		}
+		if as.Index != nil {
+			// a[i]+=s appends to that one element. The caller stores the
+			// new element value via setVarWithIndex, which copies the array.
+			elem := prev
+			elem.Kind = expand.String
+			elem.Str = r.elemValue(prev, as.Index) + s
+			return name, elem
+		}
 		switch prev.Kind {
 		case expand.String, expand.Unknown:
 			prev.Kind = expand.String
 			prev.Str += s
 		case expand.Indexed:
 			// Appends to the element at index 0, creating it if unset.
+			// Copy first, as the list may be shared with a parent shell.
+			prev.List = slices.Clone(prev.List)
+			prev.Indexes = slices.Clone(prev.Indexes)
 			if len(prev.List) > 0 && (prev.Indexes == nil || prev.Indexes[0] == 0) {
 				prev.List[0] += s
 			} else {
